@@ -1,5 +1,6 @@
 SPECIFICATION Spec
 CONSTANTS
+  MaxBurst = 2
   Scale = 60
   Depth = 16
   MaxPerCond = 1
